@@ -30,7 +30,7 @@ func init() {
 			"different type, unsupported types, struct mismatch; an accepted merge leaves to with exactly from's id and type; oracle = reference merge clauses on reflection snapshots; non-trivial = at least one property set on either side",
 		Assumptions: []string{"reading D11: 'unsupported' is judged on to's non-empty type; hosts carry specific type names (Note, Person) or none"},
 		Bound: func(tier string) string {
-			return map[string]string{"quick": "", "thorough": "property triples x 64 combinations; "}[tier] + "single properties x 4 x 4 and property pairs x 16 on 7 (to,from) kinds; nil matrix; refusal grid; per property up to 5 further value pairs (same identities objectified / permuted / shrunk, 17 and 33 members, tag-only and last-byte text changes, instants at and before the epoch, sub-second change)"
+			return map[string]string{"quick": "", "thorough": "property triples x 64 combinations; "}[tier] + "single properties x 4 x 4 and property pairs x 16 on 7 (to,from) kinds; nil matrix; refusal grid; per property up to 5 further value pairs (same identities objectified / permuted / shrunk, 17 and 33 members, tag-only and last-byte text changes, instants at and before the epoch, sub-second change); families added after round 5: DESIGN.md 8.11"
 		},
 		DeadlineQuick: 5 * time.Minute,
 		Run:           c18Run,
